@@ -779,7 +779,9 @@ func intOfF(t *Term) (src *Term, exact bool, ok bool) {
 func fpCmpInt(op Op, a, b *Term) *Term {
 	sa, ea, oka := intOfF(a)
 	sb, eb, okb := intOfF(b)
-	if oka && a == b { // an integer conversion is never NaN
+	// the same conversion of the same integer term (terms are not hash-consed: compare
+	// the sources); an integer conversion is never NaN
+	if oka && (a == b || (okb && a.op == b.op && a.sort == b.sort && a.args[0] == b.args[0])) {
 		return Bool(op != OFLt)
 	}
 	if oka && okb && ea && eb {
